@@ -207,7 +207,7 @@ class HarnessBuild:
                 self.native_exe = exe
                 return
             flags = list(GXX_FLAGS)
-            if self.h.get('native_sanitize', True): flags += ['-fsanitize=address,undefined', '-fno-sanitize-recover=undefined', '-fno-omit-frame-pointer']
+            if self.h.get('native_sanitize', True): flags += ['-fsanitize=address,undefined', '-fno-sanitize-recover=undefined', '-fno-sanitize=vptr', '-fno-omit-frame-pointer']
             if not self.h.get('exceptions'): flags.append('-fno-exceptions')
             srcs = [self.src, os.path.join(VERIF, 'rt', 'native_driver.cc')]
             csrcs = [os.path.join(VERIF, 'models', m) for m in self.h.get('native_models', [])]
